@@ -37,6 +37,18 @@ REGISTRY = dict(
     technique="machine-checked proof in Coq (ring-segment invariant by induction over the history) + regenerated-fragment interface lemmas + differential correspondence with exhaustive goal enumeration",
 )
 
+COV_FUNCS = ['stable_baselines3.her.her_replay_buffer:HerReplayBuffer.__init__',
+             'stable_baselines3.her.her_replay_buffer:HerReplayBuffer.__getstate__',
+             'stable_baselines3.her.her_replay_buffer:HerReplayBuffer.__setstate__',
+             'stable_baselines3.her.her_replay_buffer:HerReplayBuffer.set_env',
+             'stable_baselines3.her.her_replay_buffer:HerReplayBuffer.add',
+             'stable_baselines3.her.her_replay_buffer:HerReplayBuffer._compute_episode_length',
+             'stable_baselines3.her.her_replay_buffer:HerReplayBuffer.sample',
+             'stable_baselines3.her.her_replay_buffer:HerReplayBuffer._get_real_samples',
+             'stable_baselines3.her.her_replay_buffer:HerReplayBuffer._get_virtual_samples',
+             'stable_baselines3.her.her_replay_buffer:HerReplayBuffer._sample_goals',
+             'stable_baselines3.her.her_replay_buffer:HerReplayBuffer.truncate_last_trajectory']
+
 HEADER = """From Coq Require Import List ZArith Bool.
 From SB3V Require Import Model.Replay Model.Her.
 Import ListNotations.
@@ -136,7 +148,8 @@ def gen_case(rng, i):
     cap = rng.choice([1, 2, 2, 3, 3, 4, 5, 6, 8, rng.randint(1, 12)])
     buffer_size = cap * n_envs + rng.randint(0, n_envs - 1)
     case = {"id": i, "buffer_size": buffer_size, "n_envs": n_envs, "hto": rng.random() < 0.6,
-            "strategy": rng.choice(["future", "future", "final", "episode"]), "n_sampled_goal": rng.choice([1, 2, 4, 4, 8, rng.randint(1, 8)]),
+            "strategy": rng.choice(["future", "future", "final", "episode"]), "n_sampled_goal": rng.choice([0, 1, 2, 4, 4, 8, rng.randint(1, 8)]),
+            "strategy_spelling": rng.choice(["lower", "lower", "UPPER", "enum"]),
             "copy_info": rng.random() < 0.4, "vecnorm": rng.random() < 0.25,
             "obs_kind": rng.choice(["box3", "box22", "discrete"]), "goal_dim": rng.choice([1, 2]), "act_kind": rng.choice(["box", "discrete"])}
     style = rng.choice(["short", "mixed", "long", "exact", "straddle", "straddle"])
@@ -209,6 +222,14 @@ def gen_case(rng, i):
 
 # ---------------------------------------------------------------- implementation run
 
+def _spell(case):
+    """the three documented ways of naming the strategy: lower-case string, any-case string, enum member"""
+    from stable_baselines3.her.goal_selection_strategy import KEY_TO_GOAL_STRATEGY
+
+    sp = case.get("strategy_spelling", "lower")
+    return KEY_TO_GOAL_STRATEGY[case["strategy"]] if sp == "enum" else (case["strategy"].upper() if sp == "UPPER" else case["strategy"])
+
+
 def run_impl(case):
     import pickle
 
@@ -225,7 +246,7 @@ def run_impl(case):
     n = case["n_envs"]
     buf = HerReplayBuffer(case["buffer_size"], obs_sp, act_sp, env=venv, device="cpu", n_envs=n,
                           handle_timeout_termination=case["hto"], n_sampled_goal=case["n_sampled_goal"],
-                          goal_selection_strategy=case["strategy"], copy_info_dict=case["copy_info"])
+                          goal_selection_strategy=_spell(case), copy_info_dict=case["copy_info"])
     vn = None
     if case.get("vecnorm"):
         from gymnasium import spaces
@@ -730,6 +751,11 @@ def api_guards():
         probs.append(("oracle-guard-unknown-strategy-accepted", "an unknown goal_selection_strategy was accepted"))
     except (AssertionError, ValueError, KeyError):
         pass
+    try:
+        HerReplayBuffer(4, obs_sp, act_sp, env=venv, device="cpu", goal_selection_strategy=5)
+        probs.append(("oracle-guard-unknown-strategy-accepted", "goal_selection_strategy=5 was accepted"))
+    except (AssertionError, ValueError, KeyError, AttributeError):
+        pass
     buf = HerReplayBuffer(4, obs_sp, act_sp, env=venv, device="cpu")
     try:
         buf.set_env(venv)
@@ -739,6 +765,15 @@ def api_guards():
     b2 = pickle.loads(pickle.dumps(buf))
     if b2.env is not None:
         probs.append(("oracle-guard-pickle-keeps-env", "a pickled buffer kept its env"))
+    import numpy as np
+
+    o = {k: enc(obs_sp[k], [1]) for k in ("observation", "achieved_goal", "desired_goal")}
+    b2.add(o, o, enc(act_sp, [1]), np.array([1.0], dtype=np.float32), np.array([True]), [{}])
+    try:
+        b2.sample(2)
+        probs.append(("oracle-guard-sample-without-env", "sample() relabelled transitions on an unpickled buffer that has no env"))
+    except AssertionError:
+        pass
     b2.set_env(venv)
     if b2.env is not venv:
         probs.append(("oracle-guard-set-env", "set_env() after unpickling did not install the env"))
@@ -761,6 +796,9 @@ def load_corpus():
 def main():
     chk = Check("C16", groups=["her"])
     chk.build_props()
+    from harness import linecov
+
+    _cov = linecov.maybe_start(COV_FUNCS)
     n_cases = 550 if chk.tier == "quick" else 6000
     cases = load_corpus()
     n_corpus = len(cases)
@@ -830,6 +868,7 @@ def main():
         "np.random.choice / randint are replaced in the harness process to enumerate the ranges the code itself passes; the distribution of the real generator is not examined",
         "lost data (over-invalidation) is not a violation of the property and is not reported; BaseBuffer.reset() on a HER buffer is not exercised",
     ]
+    linecov.finish(_cov, chk)
     return chk.finish()
 
 
